@@ -171,7 +171,7 @@ Qed.
 Example C01_nonvacuous_noncanonical :
   let bs := hexb "02000000fd000001e80300000000000001510000000099" in
   canonical bs = false /\ exists t, tx_from_bytes bs = Ok t /\ tx_bytes t = hexb "020000000001e803000000000000015100000000".
-Proof. split; [vm_compute; reflexivity|]. eexists; split; vm_compute; reflexivity. Qed.
+Proof. split; [vm_compute; reflexivity|]. eexists. split; [vm_compute; reflexivity|]. vm_compute. reflexivity. Qed.
 
 (* the overflow finding has a witness: two outputs of 2^63 *)
 Example C01_overflow_witness :
